@@ -49,7 +49,9 @@ Expressible(cfg, layout, carrier) ==
     \* per-variable attributes can only spell a bare stream mapping
     /\ carrier = "xr_vars" => layout = "bare_streams"
 
-RegionKey(r) == IF r = "none" THEN "none" ELSE "polyA"      \* both GeoJSON forms denote the same polygon
+\* "geom" (a Feature) and "feat" (a FeatureCollection with that one feature) denote the same polygon;
+\* "feat2" is a FeatureCollection with two features (both polygons belong to the region)
+RegionKey(r) == CASE r = "none" -> "none" [] r = "feat2" -> "polyAB" [] OTHER -> "polyA"
 
 \* the calls a configuration denotes (layout only decides the stream id of the module layout)
 Calls(cfg, layout) ==
